@@ -13,6 +13,7 @@ CONSTANTS
   ClassSet = {"bnd"}
   AnswerSet = {"terr", "ok", "504"}
   TailSet = {"good"}
+  RetrySet = {"none"}
   FixScanner = FALSE
   FixCursor = TRUE
   Fix5xx = TRUE
